@@ -350,7 +350,17 @@ func runC35(c *Ctx) {
 				return false
 			}
 			id, ok := call.Fun.(*ast.Ident)
-			return ok && id.Name == "deliver"
+			if !ok {
+				return false
+			}
+			// the delivery callback: da's function-typed parameter
+			ps := da.Obj.Type().(*types.Signature).Params()
+			for i := 0; i < ps.Len(); i++ {
+				if _, isFn := ps.At(i).Type().Underlying().(*types.Signature); isFn && info.ObjectOf(id) == types.Object(ps.At(i)) {
+					return true
+				}
+			}
+			return false
 		}
 		w := f.search(searchSpec{startEdges: edgesList(zero), avoid: wd, avoidEdges: f.loopBackEdges(), target: deliver})
 		c.Check(w == nil && len(zero) > 0, "deliver-under-caller-deadline", "with a caller deadline the final delivery runs under a context bounded by it", c.P.Pos(da.Decl.Pos()), f.describe(w))
@@ -361,8 +371,21 @@ func runC35(c *Ctx) {
 			if !ok || len(r.Results) != 2 {
 				return false
 			}
+			// the error to surface when masking gives up: the local that is assigned the relocation-in-progress sentinel
 			o := objOf(info, r.Results[1])
-			return o != nil && o.Name() == "retryErr" && isNilIdent(info, r.Results[0])
+			if o == nil || !isNilIdent(info, r.Results[0]) {
+				return false
+			}
+			sentinel := false
+			ast.Inspect(da.Decl.Body, func(m ast.Node) bool {
+				if as, ok := m.(*ast.AssignStmt); ok && len(as.Lhs) == 1 && len(as.Rhs) == 1 && objOf(info, as.Lhs[0]) == o {
+					if ro := objOf(info, as.Rhs[0]); ro != nil && ro.Name() == "ErrRelocationInProgress" && ro.Parent() == ro.Pkg().Scope() {
+						sentinel = true
+					}
+				}
+				return true
+			})
+			return sentinel
 		}
 		w = f.AfterEdgesMustPass(gave, ret, nil)
 		c.Check(w == nil && len(gave) > 0, "give-up⇒retryable-error", "when waiting is no longer allowed the send returns the retryable error", c.P.Pos(da.Decl.Pos()), f.describe(w))
